@@ -499,10 +499,19 @@ func c04Touching(rs [][2]int) bool {
 
 // answer is the model's reply to {get data since before limit} by user u: ids, newest first.
 func (tp *c04Topic) answer(u, since, before, limit int) []int {
-	max := c04MaxMsgs
-	if limit > 0 && limit < max {
-		max = limit
+	return tp.eligible(u, since, before, c04Cap(limit))
+}
+
+// c04Cap: never more than the requested or the configured maximum count.
+func c04Cap(limit int) int {
+	if limit > 0 && limit < c04MaxMsgs {
+		return limit
 	}
+	return c04MaxMsgs
+}
+
+// eligible: the newest max ids in [since, before) which are neither hard-deleted nor soft-deleted by u.
+func (tp *c04Topic) eligible(u, since, before, max int) []int {
 	var out []int
 	for id := tp.last; id >= 1 && len(out) < max; id-- {
 		if tp.msgs[id] == nil || tp.hard[id] || tp.soft[u][id] {
@@ -857,7 +866,7 @@ func (o *c04Obs) judgeGetData(w *wWorld, st *wStep) *kit.Viol {
 	}
 	since, before, limit := st.Op.N, st.Op.M, st.Op.L
 	want := tp.answer(u, since, before, limit)
-	all := tp.answer(u, since, before, 1<<30)
+	all := tp.eligible(u, since, before, 1<<30)
 	wantSet := map[int]bool{}
 	for _, id := range want {
 		wantSet[id] = true
